@@ -758,8 +758,16 @@ def register_dataset_accessor(name):
     return model(lambda f: f)
 
 
+class _NA:
+    _pyvc_model_class = True
+
+    def __repr__(self):
+        return '<NA>'
+
+
 class _Dtypes:
     _pyvc_model_class = True
+    NA = _NA()
 
     @staticmethod
     @model
